@@ -218,10 +218,24 @@ Proof.
   exists [AFunc "(i)" "{ say ""$i""; }"]%string. split; vm_compute; discriminate.
 Qed.
 
+Lemma str_app_empty_r (s : string) : (s ++ "")%string = s.
+Proof. induction s as [|c s IH]; cbn; [reflexivity | now rewrite IH]. Qed.
+
+(* tokens apart in the source stay apart: between two plain tokens exactly one blank, between adjacent ones nothing *)
+Lemma arg_text_spacing :
+  forall kw a b,
+    arg_text HRepaired kw [AOther a; AGap; AOther b] = (a ++ " " ++ b)%string /\
+    arg_text HRepaired kw [AOther a; AOther b] = (a ++ b)%string /\
+    arg_text HPinned kw [AOther a; AGap; AOther b] = (a ++ b)%string.
+Proof.
+  intros kw a b. unfold arg_text, arg_text_gen. cbn.
+  rewrite ?str_app_empty_r. repeat split; reflexivity.
+Qed.
+
 Lemma arg_text_string : forall m kw s, arg_text m kw [AStr false s] = py_repr s.
 Proof.
   intros m kw s. unfold arg_text, arg_text_gen. cbn.
-  destruct m; cbn; now rewrite ?append_empty_r.
+  destruct m; cbn; now rewrite ?str_app_empty_r.
 Qed.
 
 (* the literal written for a string argument reads back as the same string *)
